@@ -9,7 +9,17 @@
 //   xml <cuts> <hex>            (reader op with format xml)
 //   reader <fmt> <cuts> <hex>   the whole Reader behind a mock Decompressor that returns the pieces
 //                               -> "ok n=<objects> h=<digest>" or "err:<class>:<what-hash>"
-// <cuts> = "-" or comma separated ascending cut positions (0 < c < len).
+// <cuts> = "-" or comma separated ascending cut positions (0 < c < len), or "%<k>" / "%<k>+<o>":
+//          pieces of k bytes, the first cut at o if o > 0.
+// <hex>  = hex bytes, "-" (empty) or "@<path>" (the bytes of that file: long records).
+// Long-record variants (digests `<len>:<fnv64>` instead of hex; same code under test):
+//   oplx <cuts> <data>          -> "L <n> <len>:<fnv> ..."  or "err:<class>"
+//   pbfx <cuts> <data>          -> "F <n> <hdrlen>:<fnv>/<bloblen>:<fnv> ... [err:<class>]"
+//   o5mx <cuts> <script> <data> -> "r<0|1>:<consumed>:<len>:<fnv of the first and last 64 window bytes> ..."
+//   file <fmt> @<path>          the whole Reader on the plain file itself (real NoDecompressor with its default
+//                               1 MiB reads / the PBF fd path)           -> like `reader`
+//   genfile <fmt> <kind> <n> <seed> <path>   a file with one huge object (kind way|rel with n refs/members)
+//                               between small ones, written by the real Writer -> "ok <bytes>"
 #include "common.hpp"
 
 #include <csignal>
@@ -43,7 +53,17 @@ namespace oid = osmium::io::detail;
 static std::vector<std::string> split_pieces(const std::string& data, const std::string& cuts) {
     std::vector<std::string> out;
     std::size_t last = 0;
-    if (cuts != "-") {
+    if (!cuts.empty() && cuts[0] == '%') {
+        const auto plus = cuts.find('+');
+        const std::size_t k = std::stoul(cuts.substr(1, plus == std::string::npos ? std::string::npos : plus - 1));
+        const std::size_t o = plus == std::string::npos ? 0 : std::stoul(cuts.substr(plus + 1));
+        if (k > 0) {
+            for (std::size_t c = (o == 0 ? k : o); c < data.size(); c += k) {
+                out.push_back(data.substr(last, c - last));
+                last = c;
+            }
+        }
+    } else if (cuts != "-") {
         std::size_t p = 0;
         while (p <= cuts.size()) {
             const auto q = cuts.find(',', p);
@@ -63,12 +83,34 @@ static std::vector<std::string> split_pieces(const std::string& data, const std:
     return out;
 }
 
+// <data> argument: hex, "-" or "@path"
+static bool get_data(const std::string& arg, std::string& data) {
+    if (!arg.empty() && arg[0] == '@') {
+        std::ifstream in{arg.substr(1), std::ios::binary};
+        if (!in) return false;
+        data.assign(std::istreambuf_iterator<char>{in}, std::istreambuf_iterator<char>{});
+        return true;
+    }
+    return vh::unhex(arg, data);
+}
+
 static uint64_t fnv(const std::string& s, uint64_t h = 1469598103934665603ULL) {
     for (unsigned char c : s) {
         h ^= c;
         h *= 1099511628211ULL;
     }
     return h;
+}
+
+static std::string dig(const std::string& s) {
+    return std::to_string(s.size()) + ":" + std::to_string(fnv(s));
+}
+
+// window digest of the o5mx op: length + digest of the first and last 64 bytes (the window is a contiguous
+// part of the stream and is printed after every step: full digests would make a script quadratic)
+static std::string digw(const std::string& s) {
+    if (s.size() <= 128) return dig(s);
+    return std::to_string(s.size()) + ":" + std::to_string(fnv(s.substr(0, 64) + s.substr(s.size() - 64)));
 }
 
 static std::string class_of(const std::exception& e) {
@@ -193,6 +235,34 @@ static std::string run_reader(const std::string& fmt, const std::vector<std::str
     return "ok n=" + std::to_string(n) + " h=" + std::to_string(h) + " hdr=" + vh::hex(hdr);
 }
 
+// The plain file itself: real NoDecompressor (default input_buffer_size reads) / PBF fd path.
+static std::string run_reader_file(const std::string& fmt, const std::string& path) {
+    uint64_t h = 1469598103934665603ULL;
+    std::size_t n = 0;
+    std::string hdr;
+    try {
+        osmium::io::File file{path, fmt};
+        osmium::io::Reader reader{file};
+        const auto header = reader.header();
+        hdr = header.get("generator");
+        for (const auto& b : header.boxes()) {
+            hdr += "|" + std::to_string(b.bottom_left().x()) + "," + std::to_string(b.bottom_left().y()) + "," +
+                   std::to_string(b.top_right().x()) + "," + std::to_string(b.top_right().y());
+        }
+        hdr += header.has_multiple_object_versions() ? "|H" : "";
+        while (osmium::memory::Buffer buffer = reader.read()) {
+            for (const auto& e : buffer.select<osmium::OSMEntity>()) {
+                h = fnv(digest_object(e) + "\n", h);
+                ++n;
+            }
+        }
+        reader.close();
+    } catch (const std::exception& e) {
+        return "err:" + class_of(e) + ":" + std::to_string(fnv(e.what()) % 100000000ULL) + (getenv("C06_WHAT") ? std::string{" "} + e.what() : std::string{});
+    }
+    return "ok n=" + std::to_string(n) + " h=" + std::to_string(h) + " hdr=" + vh::hex(hdr);
+}
+
 // The same bytes through a FIFO: a writer thread hands the pieces to the kernel with pauses in
 // between, so read(2) on the Reader's side returns short counts in the middle of the stream
 // (pipes, stdin, child processes).  The REAL NoDecompressor / PBF fd reader are used.
@@ -263,19 +333,25 @@ int main(int argc, char** argv) {
         const auto w = vh::words(line);
         if (w.empty()) return "bad-op";
         try {
-            if (w[0] == "opl" && w.size() == 3) {
+            if ((w[0] == "opl" || w[0] == "oplx") && w.size() == 3) {
+                const bool x = w[0] == "oplx";
                 std::string data;
-                if (!vh::unhex(w[2], data)) return "bad-op";
+                if (!get_data(w[2], data)) return "bad-op";
                 OplWorker worker;
                 worker.pieces = split_pieces(data, w[1]);
-                oid::line_by_line(worker);
+                try {
+                    oid::line_by_line(worker);
+                } catch (const std::exception& e) {
+                    return "err:" + class_of(e);
+                }
                 std::string out = "L " + std::to_string(worker.lines.size());
-                for (const auto& l : worker.lines) out += " " + vh::hex(l);
+                for (const auto& l : worker.lines) out += " " + (x ? dig(l) : vh::hex(l));
                 return out;
             }
-            if (w[0] == "pbf" && w.size() == 3) {
+            if ((w[0] == "pbf" || w[0] == "pbfx") && w.size() == 3) {
+                const bool x = w[0] == "pbfx";
                 std::string data;
-                if (!vh::unhex(w[2], data)) return "bad-op";
+                if (!get_data(w[2], data)) return "bad-op";
                 ParserEnv env{split_pieces(data, w[1])};
                 oid::PBFParser parser{env.args};
                 std::vector<std::string> frames;
@@ -291,12 +367,12 @@ int main(int argc, char** argv) {
                         const auto blob_size = oid::PBFParser::decode_blob_header(protozero::data_view{parser.m_input_buffer.data(), size}, first ? "OSMHeader" : "OSMData");
                         parser.pop_from_input_queue(size);
                         const std::string blob = parser.read_from_input_queue_with_check(blob_size);
-                        frames.push_back(vh::hex(hdr) + ":" + vh::hex(blob));
+                        frames.push_back(x ? dig(hdr) + "/" + dig(blob) : vh::hex(hdr) + ":" + vh::hex(blob));
                         first = false;
                     }
                 } catch (const osmium::pbf_error& e) {
                     const std::string m = e.what();
-                    if (m.find("truncated") != std::string::npos) err = "err:truncated";
+                    if (m.find("truncated") != std::string::npos || m.find("unexpected EOF") != std::string::npos) err = "err:truncated";
                     else if (m.find("BlobHeader size") != std::string::npos) err = "err:header-too-large";
                     else if (m.find("invalid blob size") != std::string::npos) err = "err:blob-too-large";
                     else err = "err:header-format";
@@ -308,9 +384,10 @@ int main(int argc, char** argv) {
                 if (!err.empty()) out += " " + err;
                 return out;
             }
-            if (w[0] == "o5m" && w.size() == 4) {
+            if ((w[0] == "o5m" || w[0] == "o5mx") && w.size() == 4) {
+                const bool x = w[0] == "o5mx";
                 std::string data;
-                if (!vh::unhex(w[3], data)) return "bad-op";
+                if (!get_data(w[3], data)) return "bad-op";
                 ParserEnv env{split_pieces(data, w[1])};
                 oid::O5mParser parser{env.args};
                 std::string out;
@@ -332,7 +409,7 @@ int main(int argc, char** argv) {
                     const char* base = parser.m_input.data();
                     const bool inside = parser.m_data >= base && parser.m_end <= base + parser.m_input.size() && parser.m_data <= parser.m_end;
                     out += std::string{"r"} + (r ? "1" : "0") + ":" + std::to_string(parser.m_data - base) + ":" +
-                           (inside ? vh::hex(std::string{parser.m_data, parser.m_end}) : std::string{"STALE"});
+                           (inside ? (x ? digw(std::string{parser.m_data, parser.m_end}) : vh::hex(std::string{parser.m_data, parser.m_end})) : std::string{"STALE"});
                     if (q == std::string::npos) break;
                     p = q + 1;
                 }
@@ -382,14 +459,60 @@ int main(int argc, char** argv) {
                 ::unlink(path.c_str());
                 return vh::hex(bytes);
             }
+            if (w[0] == "genfile" && w.size() == 6) {
+                // genfile <fmt> <kind> <n> <seed> <path>: small objects around ONE huge object (a way with n
+                // node refs or a relation with n members), written by the real Writer
+                using namespace osmium::builder::attr;
+                const std::string fmt = w[1];
+                const std::string kind = w[2];
+                const std::size_t n = std::stoul(w[3]);
+                vh::SplitMix64 rng{std::stoull(w[4])};
+                const std::string path = w[5];
+                {
+                    osmium::io::File file{path, fmt == "pbf" ? "pbf,pbf_compression=none" : fmt};
+                    osmium::io::Header header;
+                    header.set("generator", "c06");
+                    osmium::io::Writer writer{file, header, osmium::io::overwrite::allow};
+                    osmium::memory::Buffer buffer{1024 * 1024, osmium::memory::Buffer::auto_grow::yes};
+                    const std::size_t nn = 2 + rng.below(4);
+                    for (std::size_t i = 0; i < nn; ++i) {
+                        osmium::builder::add_node(buffer, _id(static_cast<int64_t>(i + 1)), _version(1), _timestamp(osmium::Timestamp{static_cast<uint32_t>(1000000 + rng.below(100000))}),
+                            _cid(rng.below(1000)), _uid(rng.below(50)), _user("u"),
+                            _location(osmium::Location{static_cast<int32_t>(rng.below(1000000)), static_cast<int32_t>(rng.below(1000000))}), _tag("k", "v"));
+                    }
+                    if (kind == "way") {
+                        std::vector<osmium::object_id_type> refs;
+                        refs.reserve(n);
+                        for (std::size_t k = 0; k < n; ++k) refs.push_back(static_cast<int64_t>(1 + rng.below(1ULL << 40)));
+                        osmium::builder::add_way(buffer, _id(10), _version(1), _timestamp(osmium::Timestamp{1000000U}), _cid(1), _uid(1), _user("u"), _nodes(refs), _tag("highway", "x"));
+                        osmium::builder::add_way(buffer, _id(11), _version(1), _timestamp(osmium::Timestamp{1000001U}), _cid(1), _uid(1), _user("u"), _nodes({1, 2, 3}));
+                    } else {
+                        static const char* roles[] = {"", "outer", "inner", "a b"};
+                        std::vector<osmium::builder::attr::member_type> members;
+                        members.reserve(n);
+                        for (std::size_t k = 0; k < n; ++k) members.emplace_back(osmium::nwr_index_to_item_type(static_cast<unsigned>(rng.below(3))), static_cast<int64_t>(1 + rng.below(1ULL << 40)), roles[rng.below(4)]);
+                        osmium::builder::add_way(buffer, _id(10), _version(1), _timestamp(osmium::Timestamp{1000000U}), _cid(1), _uid(1), _user("u"), _nodes({1, 2}));
+                        osmium::builder::add_relation(buffer, _id(20), _version(1), _timestamp(osmium::Timestamp{1000000U}), _cid(1), _uid(1), _user("u"), _members(members), _tag("type", "x"));
+                        osmium::builder::add_relation(buffer, _id(21), _version(1), _timestamp(osmium::Timestamp{1000001U}), _cid(1), _uid(1), _user("u"), _tag("type", "y"));
+                    }
+                    writer(std::move(buffer));
+                    writer.close();
+                }
+                struct stat st{};
+                if (::stat(path.c_str(), &st) != 0) return "bad-op";
+                return "ok " + std::to_string(st.st_size);
+            }
+            if (w[0] == "file" && w.size() == 3 && w[2].size() > 1 && w[2][0] == '@') {
+                return run_reader_file(w[1], w[2].substr(1));
+            }
             if (w[0] == "fifo" && w.size() == 4) {
                 std::string data;
-                if (!vh::unhex(w[3], data)) return "bad-op";
+                if (!get_data(w[3], data)) return "bad-op";
                 return run_reader_fifo(w[1], split_pieces(data, w[2]), dir);
             }
             if (w[0] == "reader" && w.size() == 4) {
                 std::string data;
-                if (!vh::unhex(w[3], data)) return "bad-op";
+                if (!get_data(w[3], data)) return "bad-op";
                 return run_reader(w[1], split_pieces(data, w[2]), dir);
             }
         } catch (const std::exception& e) {
